@@ -160,6 +160,7 @@ func vRollConcurrent(stall bool, perWriter, preempt, asym int) {
 	}
 	<-done
 	<-done
+	vAssert(vFSOpenFDs() <= 2, "at-most-two-descriptors-when-no-write-is-in-progress")
 	app.Stop()
 	// every payload whole, exactly once, in exactly one well-named file
 	var all []byte
